@@ -565,7 +565,14 @@ func (rm *room) mutatePL(before map[ref.Key]string, actor user, honest bool) map
 			rm.r.Probe("non_integer_level_proposed")
 			return sim.Pick(t, []any{fmt.Sprint(int(my)), "50", 50.5, json.Number("7.5e1"), " 25", "1e2"})
 		}
-		return sim.Pick(t, []int{int(my) + 1, int(my) + 50, int(my), 100, 0, -1, 9000})
+		return sim.Pick(t, []int{int(my) + 1, int(my) + 50, int(my), 100, 0, -1, 9000, 9007199254740991})
+	}
+	if rm.priv && !honest && t.Chance(200) {
+		// name a creator, at the level creators implicitly have, at an
+		// ordinary level, or at the sender's own
+		cr := rm.nodes[rm.order[0]].ev
+		users[string(cr.SenderID())] = sim.Pick(t, []int{9007199254740991, 100, int(my)})
+		rm.r.Probe("pl_names_a_creator")
 	}
 	nm := t.Range(1, 3)
 	for i := 0; i < nm; i++ {
